@@ -195,7 +195,10 @@ var props = map[string]*propImpl{}
 // (tools/thorough.sh; durations in DESIGN.md 10.5c). For the others "--tier thorough" explores
 // the quick-tier bounds: a bound that was never run to the end is not registered.
 var thoroughReady = map[string]bool{
-	"C18": true,
+	"C18": true, // 8 s
+	"C14": true, // 168 s (full product of imports x namespace forms x positions x name forms)
+	"C15": true, // 17 s
+	"C16": true, // 31 s
 }
 
 // reducedRun: the accessors into unexported state did not compile; drivers skip the jobs that need them.
